@@ -15,7 +15,7 @@ except ImportError:
 import ast
 
 from .path import Unsupported
-from .values import SInt, SBool, SStr, SOpt, SChoice, SList, Sym, to_z3, wrap
+from .values import SInt, SBool, SStr, SOpt, SChoice, SList, Sym, Opaque, to_z3, wrap
 from . import models
 
 _SORT = {'int': lambda: z3.IntSort(), 'bool': lambda: z3.BoolSort(), 'str': lambda: z3.StringSort()}
@@ -31,9 +31,35 @@ def _kind(v):
     return None
 
 
+def record_shape(iface):
+    """Elements that are objects of an interface all of whose attributes are scalars are stored BY VALUE (one
+    array per attribute); an element read back is an object of the interface with these attribute values
+    (object identity is not preserved)."""
+    from . import api
+    attrs = {}
+    for k in reversed(iface.__mro__):
+        attrs.update(k.__dict__.get('attrs') or {})
+    fields = []
+    for name in sorted(attrs):
+        ty = attrs[name]
+        if isinstance(ty, api._Int):
+            fields.append((name, 'int', ty.lo, ty.hi))
+        elif isinstance(ty, api._Bool):
+            fields.append((name, 'bool', None, None))
+        elif isinstance(ty, api._Str):
+            fields.append((name, 'str', None, None))
+        else:
+            raise Unsupported('symbolic mutable list of %s objects: attribute %r is not a scalar' % (iface.__name__, name))
+    if not fields:
+        raise Unsupported('symbolic mutable list of %s objects: the interface has no scalar attributes' % iface.__name__)
+    return ('rec', iface, tuple(fields))
+
+
 def shape_of_value(v):
     if isinstance(v, tuple):
         return ('tuple', tuple(shape_of_value(x) for x in v))
+    if isinstance(v, Opaque):
+        return record_shape(v._pv_iface)
     k = _kind(v)
     if k is None:
         raise Unsupported('element of a symbolic mutable list must be int/bool/str or a tuple of these: %r' % (v,))
@@ -45,24 +71,28 @@ def _paths(shape, path=()):
         for i, s in enumerate(shape[1]):
             for p in _paths(s, path + (i,)):
                 yield p
+    elif shape[0] == 'rec':
+        for f in shape[2]:
+            yield path + (f[0],), f[1]
     else:
         yield path, shape[0]
 
 
-def _leaf(v, path):
+def _leaf(interp, v, path):
     for i in path:
-        v = v[i]
+        v = v[i] if isinstance(i, int) else interp.getattr(v, i)
     return v
 
 
 class MList(SList):
-    __slots__ = ('shape', 'arrs', 'base')
+    __slots__ = ('shape', 'arrs', 'base', 'version')
 
     def __init__(self, interp, uid, shape, length=None, fresh=True):
         SList.__init__(self, length if length is not None else z3.IntVal(0), None, uid)
         self.shape = shape
         self.arrs = {}
         self.base = z3.IntVal(0)
+        self.version = 0
         self.immutable = False
         self.elem = self._elem
         if shape is not None:
@@ -70,7 +100,7 @@ class MList(SList):
 
     def _fresh_arrays(self, interp, base):
         for path, kind in _paths(self.shape):
-            name = interp.st.fresh_name('%s%s' % (base, ''.join('.%d' % i for i in path)))
+            name = interp.st.fresh_name('%s%s' % (base, ''.join('.%s' % (i,) for i in path)))
             self.arrs[path] = z3.Array(name, z3.IntSort(), _SORT[kind]())
 
     def _elem(self, interp, idx):
@@ -80,6 +110,19 @@ class MList(SList):
         def load(shape, path):
             if shape[0] == 'tuple':
                 return tuple(load(s, path + (i,)) for i, s in enumerate(shape[1]))
+            if shape[0] == 'rec':
+                from .api import new_opaque
+                preset = {}
+                for (name, kind, lo, hi) in shape[2]:
+                    t = z3.Select(self.arrs[path + (name,)], at)
+                    # well-typedness of the stored objects (only objects of the interface are ever stored)
+                    if lo is not None:
+                        interp.st.assume(t >= lo)
+                    if hi is not None:
+                        interp.st.assume(t <= hi)
+                    preset[name] = wrap(t)
+                return new_opaque(interp, shape[1], '%s@v%d%s[]' % (self.uid, self.version, ''.join('.%s' % i for i in path)),
+                                  index=(at,), preset=preset)
             return wrap(z3.Select(self.arrs[path], at))
 
         at = z3.simplify(self.base + idx)
@@ -96,6 +139,7 @@ class MList(SList):
     # ---- mutation -------------------------------------------------------------
     def havoc(self, interp, tag):
         self.cache = {}
+        self.version += 1
         n = interp.st.fresh_int('%s.len@%s' % (self.uid, tag))
         interp.st.assume(n >= 0)
         self.length = n
@@ -109,9 +153,10 @@ class MList(SList):
             v = interp.resolve(v)
         self._ensure_shape(interp, v)
         self.cache = {}
+        self.version += 1
         at = z3.simplify(self.base + self.length)
         for path, kind in _paths(self.shape):
-            self.arrs[path] = z3.Store(self.arrs[path], at, to_z3(_leaf(v, path)))
+            self.arrs[path] = z3.Store(self.arrs[path], at, to_z3(_leaf(interp, v, path)))
         self.length = z3.simplify(self.length + 1)
 
     def insert(self, interp, pos, v):
@@ -119,9 +164,10 @@ class MList(SList):
             raise Unsupported('insert at a position other than 0 in a symbolic list')
         self._ensure_shape(interp, v)
         self.cache = {}
+        self.version += 1
         self.base = z3.simplify(self.base - 1)
         for path, kind in _paths(self.shape):
-            self.arrs[path] = z3.Store(self.arrs[path], self.base, to_z3(_leaf(v, path)))
+            self.arrs[path] = z3.Store(self.arrs[path], self.base, to_z3(_leaf(interp, v, path)))
         self.length = z3.simplify(self.length + 1)
 
     def pop(self, interp, pos=-1):
@@ -133,6 +179,7 @@ class MList(SList):
             v = self._elem(interp, z3.simplify(self.length - 1))
             self.length = z3.simplify(self.length - 1)
             self.cache = {}
+            self.version += 1
             return v
         if isinstance(pos, int) and pos == 0:
             v = self._elem(interp, z3.IntVal(0))
@@ -142,6 +189,7 @@ class MList(SList):
 
     def delete_first(self, interp):
         self.cache = {}
+        self.version += 1
         self.base = z3.simplify(self.base + 1)
         self.length = z3.simplify(self.length - 1)
 
@@ -165,9 +213,10 @@ class MList(SList):
             sample = models.slist_elem(interp, other, k - end)
             for path, kind in _paths(self.shape):
                 a = self.arrs[path]
-                self.arrs[path] = z3.Lambda([k], z3.If(k < end, z3.Select(a, k), to_z3(_leaf(sample, path))))
+                self.arrs[path] = z3.Lambda([k], z3.If(k < end, z3.Select(a, k), to_z3(_leaf(interp, sample, path))))
             self.length = z3.simplify(n + other.length)
             self.cache = {}
+            self.version += 1
             return
         for x in interp.iterate(other):
             self.append(interp, x)
@@ -183,9 +232,10 @@ class MList(SList):
                 raise PyRaise(IndexError('list assignment index out of range'))
         self._ensure_shape(interp, v)
         self.cache = {}
+        self.version += 1
         at = z3.simplify(self.base + t)
         for path, kind in _paths(self.shape):
-            self.arrs[path] = z3.Store(self.arrs[path], at, to_z3(_leaf(v, path)))
+            self.arrs[path] = z3.Store(self.arrs[path], at, to_z3(_leaf(interp, v, path)))
 
     def copy(self, interp):
         c = MList(interp, interp.st.fresh_name(self.uid + '.copy'), None, self.length)
@@ -209,6 +259,7 @@ def method(interp, xs, name, args, kwargs):
     if name == 'clear':
         xs.length = z3.IntVal(0)
         xs.cache = {}
+        xs.version += 1
         return None
     return None
 
